@@ -573,7 +573,7 @@ pub fn property() -> Property {
     Property {
         id: "C13",
         level: "exploration",
-        rule: "generated: timestamp sequences of length 0..12 over base+0..30 in any order x {BoundedOutOfOrder(0..10 ms), MonotonicAscending} x {Drop, AllowedLateness(0..10), SideOutput, RecomputeWindows}; one case in four instead takes delay D and lateness L from the whole millisecond range (non-round values from 1001 up to 2^44, minute/hour/day marks and their neighbours) with timestamps c1*D + c2*L + e (e in -1..1) placed on, just below and just above the boundaries the statement names; one case in three carries a sub-millisecond rest (1..999 us) on the delay and the lateness, which for whole-millisecond timestamps must change nothing observable (t < m - (D+r) exactly when t < m - D); plus exhaustive enumeration of all sequences of length 4..6 (quick) / 4..8 (thorough) over a 6-value domain x 20 configurations (every prefix is judged, so shorter sequences are covered). Oracle: watermark/late model from the statement, compared after every add_event (watermark value, monotonicity, events, side output, stats, conservation, history). Non-trivial: at least one late event and a watermark advance after it; distinct by (configuration, sequence). Part `components`: WatermarkGenerator and LateDataHandler driven directly (offer = is_late ? handle_late_event : process_event, as add_event composes them) with clear_side_output drains between offers; judged after every step: process_event returns Some(new watermark) exactly when it moved, the decision is the one the strategy prescribes and carries the event, total_late / dropped / allowed count every late event offered so far (a drain un-counts nothing), side_output is the current buffer size and the buffer holds the late events routed there since the last drain, is_late answers t < watermark.",
+        rule: "generated: timestamp sequences of length 0..12 over base+0..30 in any order x {BoundedOutOfOrder(0..10 ms), MonotonicAscending} x {Drop, AllowedLateness(0..10), SideOutput, RecomputeWindows}; one case in four instead takes delay D and lateness L from the whole millisecond range (non-round values from 1001 up to 2^44, minute/hour/day marks and their neighbours) with timestamps c1*D + c2*L + e (e in -1..1) placed on, just below and just above the boundaries the statement names; one case in three carries a sub-millisecond rest (1..999 us) on the delay and the lateness, which for whole-millisecond timestamps must change nothing observable (t < m - (D+r) exactly when t < m - D); plus exhaustive enumeration of all sequences of length 4..6 (quick) / 4..8 (thorough) over a 6-value domain x 20 configurations (every prefix is judged, so shorter sequences are covered). Oracle: watermark/late model from the statement, compared after every add_event (watermark value, monotonicity, events, side output, stats, conservation, history). Non-trivial: at least one late event and a watermark advance after it; distinct by (configuration, sequence). Part `components`: WatermarkGenerator and LateDataHandler driven directly (offer = is_late ? handle_late_event : process_event, as add_event composes them) with clear_side_output drains between offers; judged after every step: process_event returns Some(new watermark) exactly when it moved, the decision is the one the strategy prescribes and carries the event, total_late / dropped / allowed count every late event offered so far (a drain un-counts nothing), side_output is the current buffer size and the buffer holds the late events routed there since the last drain, is_late answers t < watermark. Drawn last: 1 case in 5 re-uses event ids (period 1..3), 1 case in 5 carries non-zero sequence numbers 1 + i mod k (k in 1..3) from one source.",
         assumptions: vec!["The Periodic strategy reads the wall clock: its watermark values are not modelled; part `periodic` judges only what is stated relative to the watermark observed before each call (monotone, late iff below it, routing, statistics), with real sleeps past the interval in the generator but no clock in the oracle. Custom does nothing.".into()],
         parts: vec![
             Part { name: "random", run, quick: Budget::Random { cases: 4_000_000, bytes: 40 }, thorough: Budget::Random { cases: 60_000_000, bytes: 40 }, min_nontrivial_pct: 15 },
